@@ -30,7 +30,8 @@ type CheckCfg struct {
 	Bounds     map[string]string `json:"bounds"`
 	Outside    []string          `json:"outside_claim"`
 	ReplayPkg  map[string]string `json:"replay_pkg,omitempty"`
-	Prefix     []string          `json:"obligation_prefixes,omitempty"` // only these obligations belong to the property (shared harnesses)
+	Prefix     []string          `json:"obligation_prefixes,omitempty"`
+	Sites      []string          `json:"nondeterminism_sites,omitempty"` // C06: the reviewed list of map-range/go/select/clock sites // only these obligations belong to the property (shared harnesses)
 }
 
 type Finding struct {
@@ -114,6 +115,26 @@ func cmdCheck(args []string) int {
 		return 2
 	}
 	loadS := time.Since(t0).Seconds()
+	var sitesNow []string
+	if cfg.Sites != nil {
+		sitesNow = nondetSites(l)
+		known := map[string]bool{}
+		for _, x := range cfg.Sites {
+			known[x] = true
+		}
+		var fresh []string
+		for _, x := range sitesNow {
+			if !known[x] {
+				fresh = append(fresh, x)
+			}
+		}
+		if len(fresh) > 0 {
+			for _, x := range fresh {
+				fmt.Println("ERROR new source of nondeterminism not covered by a harness:", x)
+			}
+			return 2
+		}
+	}
 
 	type agg struct {
 		oblStat
@@ -408,6 +429,7 @@ func cmdCheck(args []string) int {
 			"functions_encoded_count":       len(funcs),
 			"intrinsics_used":               sortedKeys(intr),
 			"bounds":                        cfg.Bounds,
+			"nondeterminism_sites_in_ssa":   sitesNow,
 			"solver":                        "z3 4.8.12 (persistent z3 -in, push/pop, timeout per query)",
 			"solver_queries":                queries,
 			"solver_unknown":                unknowns,
